@@ -90,7 +90,10 @@ class ApiRun:
         for i, (case, probs) in enumerate(self.failures):
             c = {"kind": "api", "parts": case["parts"], "options": case["options"], "base": case.get("base"), "world": case.get("world", []),
                  "name": case.get("name"), "check": self.name}
-            if i == 0:
+            for k in ("items", "where", "expect", "noshrink", "meta"):
+                if k in case:
+                    c[k] = case[k]
+            if i == 0 and not case.get("noshrink"):
                 try:
                     p2, o2 = shrink.shrink_case(case["parts"], case["options"], self.fails(case, self.signature(probs[0])), budget=250)
                     c["parts"], c["options"] = p2, o2
